@@ -7,7 +7,7 @@
  R3 derived quantities: every stored quotient is wrapped in nan_to_num(nan=0, posinf=0, neginf=0);
  R4 definitions: margin = dem - gop, weights = dem + gop, normalized = margin / weights, turnout_factor = results_weights / baseline_weights;
  R5 defaults 0.5 / 2.0 / True / True / 2.0 and binding of every get_units argument to the model_parameters key of the same name;
- R6 baseline join (left, on state + unit id) and the two unreporting policies (drop = dropna any of the result columns;
+ R6 baseline join (left, on state + unit id) and the two unreporting policies (zero also fills the derived quantities; drop = dropna any of the result columns;
     zero = fill 0 and set percent_expected_vote to 0 on exactly the rows that had a missing result).
 """
 from __future__ import annotations
@@ -265,6 +265,26 @@ def check(ctx):
                 zdetail = ("zero: missing results filled with 0 and percent_expected_vote set to 0 on exactly those rows" if zero_ok else
                            f"zero policy: fill={okf}, pev value={ir.show(sets[0][3])}, mask computed before the fill={pre}, mask=any-missing={anyna}")
     ctx.ob("C09.R6.zero", f"{ini.qualname}|policy zero", zero_ok, ini.where(), zdetail)
+    # .. and on those rows every quantity DERIVED from the results (two-party votes, normalised margin, turnout factor, the
+    # party columns of the margin estimand) is filled with 0 as well: they are NaN from the left join, and a unit that is passed
+    # through (blocklisted / zero baseline) carries them into the group sums
+    okder, ddetail = False, "under the zero policy the results-derived columns of units missing from the feed stay NaN"
+    for t in ir.walk(dt):
+        if t[0] == "phi" and t[1] == ("cmp", "==", ("param", "handle_unreporting"), ("const", "zero")):
+            for x in ir.walk(t[2]):
+                if x[0] == "setitem" and x[2][0] == "tuple" and len(x[2][1]) == 2 and x[2][1][1][0] == "comp":
+                    comp = x[2][1][1]
+                    sel = " ".join(ir.show(cnd, maxdepth=6) for g_ in comp[3] for cnd in g_[2])
+                    over_columns = any(g_[1][0] == "attr" and g_[1][2] == "columns" for g_ in comp[3])
+                    covers = over_columns and "startswith('results_')" in sel and "'turnout_factor'" in sel
+                    v = x[3]
+                    filled = v[0] == "call" and v[1][0] == "attr" and v[1][2] == "fillna" and (
+                        dict(v[3]).get("value") == ("const", 0) or (v[2] and v[2][0] == ("const", 0)))
+                    same_rows = "isna().any(axis=1)" in ir.show(x[2][1][0], maxdepth=6)
+                    if covers and filled and same_rows:
+                        okder = True
+                        ddetail = "zero: every results_* column and turnout_factor of the rows with missing results is filled with 0"
+    ctx.ob("C09.R6.zero-derived", f"{ini.qualname}|policy zero fills the derived quantities", okder, ini.where(), ddetail)
 
 
 def _const_col(Fm, fr, col):
